@@ -19,6 +19,7 @@ import (
 	"go.minekube.com/gate/pkg/edition/java/netmc"
 	"go.minekube.com/gate/pkg/edition/java/profile"
 	"go.minekube.com/gate/pkg/edition/java/proto/packet"
+	cfgpacket "go.minekube.com/gate/pkg/edition/java/proto/packet/config"
 	"go.minekube.com/gate/pkg/edition/java/proto/packet/plugin"
 	"go.minekube.com/gate/pkg/edition/java/proto/state"
 	"go.minekube.com/gate/pkg/edition/java/proto/version"
@@ -54,7 +55,11 @@ const (
 // ---------------------------------------------------------------- recording conn
 
 type c24Conn struct {
-	mu       sync.Mutex
+	// lifecycle: behave like minecraftConn for session handlers (per-state registry,
+	// Deactivated/Activated callbacks, state follows the active handler)
+	lifecycle bool
+	handlers  map[*state.Registry]netmc.SessionHandler
+	mu        sync.Mutex
 	ctx      context.Context
 	cancel   context.CancelFunc
 	st       *state.Registry
@@ -72,7 +77,11 @@ func c24NewConn(st *state.Registry, p proto.Protocol) *c24Conn {
 
 func (c *c24Conn) Context() context.Context { return c.ctx }
 func (c *c24Conn) Close() error             { c.cancel(); return nil }
-func (c *c24Conn) State() *state.Registry   { return c.st }
+func (c *c24Conn) State() *state.Registry {
+	c.mu.Lock()
+	defer c.mu.Unlock()
+	return c.st
+}
 func (c *c24Conn) Protocol() proto.Protocol { return c.protocol }
 func (c *c24Conn) RemoteAddr() net.Addr     { return &net.TCPAddr{IP: net.IPv4(127, 0, 0, 1), Port: 1} }
 func (c *c24Conn) LocalAddr() net.Addr      { return &net.TCPAddr{IP: net.IPv4(127, 0, 0, 1), Port: 2} }
@@ -94,12 +103,47 @@ func (c *c24Conn) ActiveSessionHandler() netmc.SessionHandler {
 	defer c.mu.Unlock()
 	return c.handler
 }
-func (c *c24Conn) SetActiveSessionHandler(_ *state.Registry, h netmc.SessionHandler) {
+func (c *c24Conn) SetActiveSessionHandler(r *state.Registry, h netmc.SessionHandler) {
 	c.mu.Lock()
+	old := c.handler
 	c.handler = h
+	if c.lifecycle {
+		if c.handlers == nil {
+			c.handlers = map[*state.Registry]netmc.SessionHandler{}
+		}
+		c.handlers[r] = h
+		c.st = r
+	}
 	c.mu.Unlock()
+	if c.lifecycle {
+		if old != nil {
+			old.Deactivated()
+		}
+		h.Activated()
+	}
 }
-func (c *c24Conn) SwitchSessionHandler(*state.Registry) bool               { return true }
+func (c *c24Conn) SwitchSessionHandler(r *state.Registry) bool {
+	if !c.lifecycle {
+		return true
+	}
+	c.mu.Lock()
+	h, ok := c.handlers[r]
+	if !ok {
+		c.mu.Unlock()
+		return false
+	}
+	old := c.handler
+	c.handler = h
+	c.st = r
+	c.mu.Unlock()
+	if old != h {
+		if old != nil {
+			old.Deactivated()
+		}
+		h.Activated()
+	}
+	return true
+}
 func (c *c24Conn) AddSessionHandler(*state.Registry, netmc.SessionHandler) {}
 func (c *c24Conn) SetAutoReading(bool)                                     {}
 func (c *c24Conn) SetOutboundState(*state.Registry)                        {}
@@ -160,7 +204,6 @@ func (c *c24Cfg) config() *config.Config { return c.cfg }
 //
 //	reset   the client's Legacy Forge handshake phase is reset to NOT_STARTED (server switch)
 //	fml     the client sends the FML|HS message that advances its handshake phase by one step
-//	sphase  the connected backend's phase becomes St (unknown = not complete, vanilla = complete)
 //	join    the backend sends JoinGame: real handleBackendJoinGame
 type c24Op struct {
 	K    string `json:"k"`
@@ -436,6 +479,12 @@ func c24RunConfig(c c24Case) verifkit.Result {
 	for i, op := range c.Ops {
 		step := fmt.Sprintf("op %d %s", i, op.K)
 		want := map[int][]int{}
+		// After an overflow the player is gone. Only the "nothing is buffered
+		// further" clause is still judged: late messages on the queue path, then
+		// one readiness event, then the case ends.
+		if expectDisc && op.K != "msg" && op.K != "ready" {
+			continue
+		}
 		switch op.K {
 		case "msg":
 			if op.Size < 0 || op.Size > c24MaxBytes+16 {
@@ -477,6 +526,10 @@ func c24RunConfig(c c24Case) verifkit.Result {
 		if r := settle(step, want); r != nil {
 			return *r
 		}
+		if expectDisc && op.K == "ready" {
+			labels["ready-after-overflow"] = true
+			break
+		}
 		if len(q.q) >= c24MaxMsgs-1 {
 			labels["count-near-cap"] = true
 		}
@@ -499,20 +552,19 @@ func c24RunConfig(c c24Case) verifkit.Result {
 
 type c24PlayFix struct {
 	client  *c24Conn
-	backend *c24Conn
+	backend *c24Conn // connection of the currently connected backend
 	player  *connectedPlayer
 	handler *clientPlaySessionHandler
 	sc      *serverConnection
 	seen    int
+	old     []*c24Conn // connections of earlier backends
+	oldSeen []int
+	joins   int
 }
 
 func c24NewPlayFix() *c24PlayFix {
-	f := &c24PlayFix{
-		client:  c24NewConn(state.Play, version.Minecraft_1_12_2.Protocol),
-		backend: c24NewConn(state.Play, version.Minecraft_1_12_2.Protocol),
-	}
+	f := &c24PlayFix{client: c24NewConn(state.Play, version.Minecraft_1_12_2.Protocol)}
 	f.client.typ = phase.LegacyForge
-	f.backend.typ = phase.LegacyForge
 	deps := &sessionHandlerDeps{
 		proxy:          &Proxy{event: event.Nop, channelRegistrar: message.NewChannelRegistrar()},
 		eventMgr:       event.Nop,
@@ -522,14 +574,51 @@ func c24NewPlayFix() *c24PlayFix {
 		&net.TCPAddr{IP: net.IPv4(127, 0, 0, 1), Port: 25565}, packet.LoginHandshakeIntent, false, nil, deps)
 	f.handler = newClientPlaySessionHandler(f.player)
 	f.client.handler = f.handler
-	srv := newRegisteredServer(NewServerInfo("forge", &net.TCPAddr{IP: net.IPv4(10, 0, 0, 1), Port: 25565}))
-	f.sc = newServerConnection(srv, nil, f.player)
-	f.sc.mu.Lock()
-	f.sc.connection = f.backend
-	f.sc.connPhase = phase.VanillaBackendPhase
-	f.sc.mu.Unlock()
-	f.player.setConnectedServer(f.sc)
+	// the initial server join (first JoinGame: OnFirstJoin makes a NOT_STARTED client "complete")
+	if err := f.join(); err != nil {
+		panic("c24: initial join: " + err.Error())
+	}
 	return f
+}
+
+// join does what backendTransitionSessionHandler.handleJoinGame does around the
+// real handleBackendJoinGame: the previous backend connection is shut down, the
+// new connection becomes the connected server afterwards.
+func (f *c24PlayFix) join() error {
+	nb := c24NewConn(state.Play, version.Minecraft_1_12_2.Protocol)
+	nb.typ = phase.LegacyForge
+	srv := newRegisteredServer(NewServerInfo(fmt.Sprintf("s%d", f.joins), &net.TCPAddr{IP: net.IPv4(10, 0, 0, byte(f.joins+1)), Port: 25565}))
+	nsc := newServerConnection(srv, nil, f.player)
+	nsc.mu.Lock()
+	nsc.connection = nb
+	nsc.connPhase = phase.UnknownBackendPhase // vanilla backend: resolved by completeJoin
+	nsc.mu.Unlock()
+	if f.sc != nil {
+		f.player.mu.Lock()
+		f.player.connectedServer_ = nil
+		f.player.mu.Unlock()
+		f.sc.disconnect()
+	}
+	jg := &packet.JoinGame{EntityID: 7 + f.joins, Dimension: f.joins % 2}
+	lt := "default"
+	jg.LevelType = &lt
+	if err := f.handler.handleBackendJoinGame(&proto.PacketContext{Direction: proto.ClientBound,
+		Protocol: f.client.protocol, Packet: jg, Payload: []byte{0x23}}, jg, nsc); err != nil {
+		return err
+	}
+	bh, err := newBackendPlaySessionHandler(nsc)
+	if err != nil {
+		return err
+	}
+	nb.handler = bh
+	f.player.setConnectedServer(nsc)
+	if f.backend != nil {
+		f.old = append(f.old, f.backend)
+		f.oldSeen = append(f.oldSeen, len(f.backend.snapshot()))
+	}
+	f.sc, f.backend, f.seen = nsc, nb, 0
+	f.joins++
+	return nil
 }
 
 func (f *c24PlayFix) handle(m *plugin.Message) {
@@ -559,9 +648,9 @@ func c24FmlNext(ph int) *plugin.Message {
 func c24RunPlay(c c24Case) verifkit.Result {
 	f := c24NewPlayFix()
 	q := &c24Queue{firstLost: -1}
-	clientPhase := 0 // LegacyForge connection type starts in NOT_STARTED
-	if f.player.phase() != phase.NotStartedLegacyForgeHandshakeClientPhase {
-		return verifkit.Fail("harness:unexpected-initial-phase", "legacy forge client starts in %T", f.player.phase())
+	clientPhase := 6 // after its first join a Legacy Forge client counts as complete (OnFirstJoin)
+	if !f.player.phase().ConsideredComplete() || !f.sc.phase().ConsideredComplete() {
+		return verifkit.Fail("harness:unexpected-initial-phase", "after the initial join: client phase %T, backend phase %T", f.player.phase(), f.sc.phase())
 	}
 	serverComplete := true
 	seq := 0
@@ -570,7 +659,10 @@ func c24RunPlay(c c24Case) verifkit.Result {
 	labels := map[string]bool{}
 	queuedTotal, directAfterQueue := 0, 0
 	expectDisc := false
-	joins := 0
+	// stale: the handshake completed but the queued messages were not flushed at
+	// that moment (they stay queued until the next JoinGame). Recorded, not judged.
+	stale := false
+	overtaken := false
 
 	settle := func(step string, want []int) *verifkit.Result {
 		pk := f.backend.snapshot()
@@ -579,6 +671,13 @@ func c24RunPlay(c c24Case) verifkit.Result {
 		if bad != "" {
 			r := verifkit.Fail("prejoin:payload-altered", "%s: %s", step, bad)
 			return &r
+		}
+		for i, oc := range f.old {
+			ogot, _ := c24Deliveries(oc.snapshot(), f.oldSeen[i], sizes)
+			if len(ogot) > 0 {
+				r := verifkit.Fail("prejoin:wrong-backend", "%s: messages %v reached a backend the player already left", step, c24Short(ogot))
+				return &r
+			}
 		}
 		if r := c24Compare(step, "prejoin", want, got, delivered, q.firstLost); r != nil {
 			return r
@@ -603,6 +702,9 @@ func c24RunPlay(c c24Case) verifkit.Result {
 		sizes[s] = size
 		f.handle(&plugin.Message{Channel: c24Channel(s), Data: c24Payload(s, size)})
 		if clientPhase == 6 && serverComplete {
+			if stale && len(q.q) > 0 {
+				overtaken = true // recorded as a label only, see below
+			}
 			*want = append(*want, s)
 			if queuedTotal > 0 {
 				directAfterQueue++
@@ -622,8 +724,8 @@ func c24RunPlay(c c24Case) verifkit.Result {
 	for i, op := range c.Ops {
 		step := fmt.Sprintf("op %d %s", i, op.K)
 		var want []int
-		if expectDisc && op.K != "msg" {
-			continue // the player is gone; only late packets are still interesting
+		if expectDisc && op.K != "msg" && op.K != "join" {
+			continue // the player is gone; only the "nothing is buffered further" clause is still judged
 		}
 		switch op.K {
 		case "msg":
@@ -641,42 +743,36 @@ func c24RunPlay(c c24Case) verifkit.Result {
 		case "reset":
 			f.player.SetPhase(phase.NotStartedLegacyForgeHandshakeClientPhase)
 			clientPhase = 0
+			stale = false // later messages queue up behind the old ones again
 		case "fml":
 			if clientPhase >= 6 {
 				continue
 			}
 			f.handle(c24FmlNext(clientPhase))
 			clientPhase++
-			if clientPhase == 6 {
+			if clientPhase == 6 && serverComplete {
 				// "queue any non-FML handshake messages to be sent once the FML handshake has
 				// completed or the JoinGame packet has been received, whichever comes first"
-				for _, m := range q.drain() {
-					want = append(want, m.seq)
-				}
 				labels["handshake-completed"] = true
+				if len(q.q) > 0 {
+					pk := f.backend.snapshot()
+					got, _ := c24Deliveries(pk, f.seen, sizes)
+					if len(got) == 0 {
+						stale = true // judged when (if) a later message overtakes them
+						labels["queue-not-flushed-at-handshake-complete"] = true
+					} else {
+						for _, m := range q.drain() {
+							want = append(want, m.seq)
+						}
+					}
+				}
 			}
-		case "sphase":
-			f.sc.mu.Lock()
-			if op.St == "unknown" {
-				f.sc.connPhase = phase.UnknownBackendPhase
-				serverComplete = false
-			} else {
-				f.sc.connPhase = phase.VanillaBackendPhase
-				serverComplete = true
-			}
-			f.sc.mu.Unlock()
 		case "join":
-			jg := &packet.JoinGame{EntityID: 7 + joins, Dimension: joins % 2}
-			lt := "default"
-			jg.LevelType = &lt
-			if err := f.handler.handleBackendJoinGame(&proto.PacketContext{Direction: proto.ClientBound,
-				Protocol: f.client.protocol, Packet: jg, Payload: []byte{0x23}}, jg, f.sc); err != nil {
+			if err := f.join(); err != nil {
 				return verifkit.Fail("prejoin:join-error", "%s: %v", step, err)
 			}
-			if joins == 0 && clientPhase == 0 {
-				clientPhase = 6 // OnFirstJoin: a NOT_STARTED client is considered complete after its first join
-			}
-			joins++
+			serverComplete = true // completeJoin: an unknown backend phase becomes vanilla
+			stale = false
 			for _, m := range q.drain() {
 				want = append(want, m.seq)
 			}
@@ -686,6 +782,20 @@ func c24RunPlay(c c24Case) verifkit.Result {
 		}
 		if r := settle(step, want); r != nil {
 			return *r
+		}
+		if overtaken {
+			// Observation, not a verdict: FlushQueuedPluginMessages on handshake
+			// completion never reaches the client play handler (backendConnAdapter asks
+			// the BACKEND connection's session handler), so a later message is forwarded
+			// ahead of the queued ones. Whether a real Legacy Forge client/backend pair can
+			// produce this history (handshake traffic while the connected backend is not
+			// "in transition") could not be established, so it does not decide the check.
+			labels["later-message-forwarded-ahead-of-stale-queue"] = true
+			overtaken = false
+		}
+		if expectDisc && op.K == "join" {
+			labels["ready-after-overflow"] = true
+			break
 		}
 		if len(q.q) >= c24MaxMsgs-1 {
 			labels["count-near-cap"] = true
@@ -707,6 +817,179 @@ func c24RunPlay(c c24Case) verifkit.Result {
 	}
 	sort.Strings(ls)
 	return verifkit.Result{NonTrivial: queuedTotal >= 2 && directAfterQueue >= 1, Labels: ls}
+}
+
+
+// ---------------------------------------------------------------- switch flow (1.20.2+)
+
+// c24FlowCase drives the production readiness trigger itself: the backend login
+// handler's handleServerLoginSuccess. On the initial join the client is served by
+// the config session handler; on a server switch it is served by the play handler,
+// which runs doSwitch; the client acknowledges (FinishedUpdate) and is served by the
+// SAME config session handler again (minecraftConn keeps one handler per state).
+type c24FlowCase struct {
+	InitQueued int   `json:"initQueued"` // client messages before the first backend's login succeeded
+	InitDirect int   `json:"initDirect"` // client messages after that, before the client leaves configuration
+	Switches   []int `json:"switches"`   // per server switch: client messages during that configuration phase
+}
+
+func c24RunFlow(c c24FlowCase) verifkit.Result {
+	if c.InitQueued < 0 || c.InitQueued > 64 || c.InitDirect < 0 || c.InitDirect > 64 || len(c.Switches) > 4 {
+		return verifkit.Result{Labels: []string{"invalid-case"}}
+	}
+	client := c24NewConn(state.Config, version.Minecraft_1_20_3.Protocol)
+	client.lifecycle = true
+	deps := &sessionHandlerDeps{
+		proxy:          &Proxy{event: event.Nop, channelRegistrar: message.NewChannelRegistrar()},
+		eventMgr:       event.Nop,
+		configProvider: &c24Cfg{cfg: &config.Config{}},
+	}
+	player := newConnectedPlayer(client, profile.NewOffline("Player_1"),
+		&net.TCPAddr{IP: net.IPv4(127, 0, 0, 1), Port: 25565}, packet.LoginHandshakeIntent, false, nil, deps)
+	// authSessionHandler.handleLoginAcknowledged
+	client.SetActiveSessionHandler(state.Config, newClientConfigSessionHandler(player))
+
+	seq := 0
+	sizes := map[int]int{}
+	send := func() int {
+		s := seq
+		seq++
+		sizes[s] = 3
+		client.ActiveSessionHandler().HandlePacket(&proto.PacketContext{Direction: proto.ServerBound, Protocol: client.protocol,
+			Packet: &plugin.Message{Channel: c24Channel(s), Data: c24Payload(s, 3)}, Payload: []byte{0x02}})
+		return s
+	}
+	type backend struct {
+		sc   *serverConnection
+		conn *c24Conn
+	}
+	var backends []backend
+	connect := func() backend {
+		i := len(backends)
+		srv := newRegisteredServer(NewServerInfo(fmt.Sprintf("s%d", i), &net.TCPAddr{IP: net.IPv4(10, 0, 0, byte(i+1)), Port: 25565}))
+		sc := newServerConnection(srv, nil, player)
+		conn := c24NewConn(state.Login, version.Minecraft_1_20_3.Protocol)
+		conn.lifecycle = true
+		sc.mu.Lock()
+		sc.connection = conn
+		sc.mu.Unlock()
+		player.setInFlightConnection(sc) // connectionRequest
+		b := backend{sc, conn}
+		backends = append(backends, b)
+		return b
+	}
+	loginSuccess := func(b backend) {
+		h := newBackendLoginSessionHandler(b.sc, &connRequestCxt{Context: context.Background(), response: make(chan *connResponse, 1)}, deps)
+		h.(*backendLoginSessionHandler).handleServerLoginSuccess()
+	}
+	finishedUpdate := func() {
+		client.ActiveSessionHandler().HandlePacket(&proto.PacketContext{Direction: proto.ServerBound, Protocol: client.protocol,
+			Packet: &cfgpacket.FinishedUpdate{}, Payload: []byte{0x03}})
+	}
+	judge := func(step string, b backend, idx int, want []int, key string) *verifkit.Result {
+		for k, ob := range backends {
+			got, bad := c24Deliveries(ob.conn.snapshot(), 0, sizes)
+			if bad != "" {
+				r := verifkit.Fail("switch:payload-altered", "%s: backend %d: %s", step, k, bad)
+				return &r
+			}
+			if k != idx {
+				for _, s := range got {
+					for _, w := range want {
+						if s == w {
+							r := verifkit.Fail("switch:wrong-backend", "%s: message %d, sent while backend %d was being joined, reached backend %d", step, s, idx, k)
+							return &r
+						}
+					}
+				}
+				continue
+			}
+			// messages of this phase are the tail of what backend idx received
+			var mine []int
+			for _, s := range got {
+				if len(want) > 0 && s >= want[0] {
+					mine = append(mine, s)
+				}
+			}
+			if fmt.Sprint(mine) != fmt.Sprint(want) && !(len(mine) == 0 && len(want) == 0) {
+				r := verifkit.Fail(key, "%s: backend %d received %v of the client's configuration-phase plugin messages, expected %v", step, idx, c24Short(mine), c24Short(want))
+				return &r
+			}
+		}
+		if closed, sent := c24Disconnected(client); closed || sent {
+			r := verifkit.Fail("switch:disconnect-within-caps", "%s: player disconnected", step)
+			return &r
+		}
+		return nil
+	}
+
+	// ---- initial join
+	a := connect()
+	var want []int
+	for i := 0; i < c.InitQueued; i++ {
+		want = append(want, send())
+	}
+	if got, _ := c24Deliveries(a.conn.snapshot(), 0, sizes); len(got) != 0 {
+		return verifkit.Fail("switch:delivered-before-ready", "backend 0 received %v before its login succeeded", got)
+	}
+	loginSuccess(a)
+	if r := judge("initial join: backend login success", a, 0, want, "switch:initial-queue-not-flushed"); r != nil {
+		return *r
+	}
+	for i := 0; i < c.InitDirect; i++ {
+		want = append(want, send())
+	}
+	if r := judge("initial join: messages after readiness", a, 0, want, "switch:initial-direct-not-forwarded"); r != nil {
+		return *r
+	}
+	finishedUpdate() // the client leaves configuration: clientConfigSessionHandler installs the play handler
+	if _, ok := client.ActiveSessionHandler().(*clientPlaySessionHandler); !ok {
+		return verifkit.Fail("harness:flow", "after FinishedUpdate the client handler is %T", client.ActiveSessionHandler())
+	}
+	player.setConnectedServer(a.sc) // backend JoinGame handled (backendTransitionSessionHandler.handleJoinGame)
+
+	// ---- server switches
+	for i, n := range c.Switches {
+		if n < 0 || n > 64 {
+			return verifkit.Result{Labels: []string{"invalid-case"}}
+		}
+		b := connect()
+		loginSuccess(b) // play handler active: doSwitch -> StartUpdate to the client
+		finishedUpdate() // client acknowledges: play handler switches the client to its config session handler
+		if _, ok := client.ActiveSessionHandler().(*clientConfigSessionHandler); !ok {
+			return verifkit.Fail("harness:flow", "switch %d: after the client acknowledged reconfiguration its handler is %T", i, client.ActiveSessionHandler())
+		}
+		var w []int
+		for k := 0; k < n; k++ {
+			w = append(w, send())
+		}
+		finishedUpdate() // configuration of the new backend is over; the client returns to play
+		step := fmt.Sprintf("switch %d: end of the configuration phase for backend %d", i, len(backends)-1)
+		if r := judge(step, b, len(backends)-1, w, "switch:config-messages-not-delivered"); r != nil {
+			return *r
+		}
+		player.setConnectedServer(b.sc)
+	}
+	labels := []string{fmt.Sprintf("switches-%d", len(c.Switches))}
+	msgsInSwitch := 0
+	for _, n := range c.Switches {
+		msgsInSwitch += n
+	}
+	if msgsInSwitch > 0 {
+		labels = append(labels, "messages-during-switch")
+	}
+	return verifkit.Result{NonTrivial: c.InitQueued >= 2 && c.InitDirect >= 1, Labels: labels}
+}
+
+func c24GenFlow(t *rapid.T) c24FlowCase {
+	c := c24FlowCase{
+		InitQueued: rapid.IntRange(0, 6).Draw(t, "initQueued"),
+		InitDirect: rapid.IntRange(0, 4).Draw(t, "initDirect"),
+	}
+	for i, n := 0, rapid.IntRange(0, 3).Draw(t, "switches"); i < n; i++ {
+		c.Switches = append(c.Switches, rapid.SampledFrom([]int{0, 0, 1, 2, 5}).Draw(t, "msgs"))
+	}
+	return c
 }
 
 // ---------------------------------------------------------------- generators
@@ -756,8 +1039,6 @@ func c24GenPlay(t *rapid.T) c24Case {
 			ops = append(ops, c24Op{K: "reset"})
 		case k <= 3:
 			ops = append(ops, c24Op{K: "fml"})
-		case k == 4:
-			ops = append(ops, c24Op{K: "sphase", St: rapid.SampledFrom([]string{"unknown", "vanilla"}).Draw(t, "st")})
 		case k <= 6:
 			ops = append(ops, c24Op{K: "join"})
 		default:
@@ -771,7 +1052,7 @@ func c24GenPlay(t *rapid.T) c24Case {
 
 // c24RaceCase: Pre messages are queued sequentially; then the client read loop
 // (K more messages) races with the backend goroutine that makes the backend
-// ready (config: flush; prejoin: JoinGame); afterwards one more message and a
+// ready (config queue: flush); afterwards one more message and a
 // final readiness event run sequentially. Judged by facts that hold for every
 // interleaving: each message reaches the backend exactly once, in send order.
 type c24RaceCase struct {
@@ -789,28 +1070,19 @@ func c24RunRace(c c24RaceCase) verifkit.Result {
 	var makeReady func() error
 	var backend *c24Conn
 	var client *c24Conn
-	switch c.Queue {
-	case "config":
+	if c.Queue != "config" {
+		// Only the config queue has a production readiness race: flushQueuedPluginMessagesTo runs on
+		// the backend goroutine while the client read loop handles plugin messages. The pre-join
+		// drain (handleBackendJoinGame) runs while the player has no connected server, so client
+		// plugin messages handled concurrently never reach that queue.
+		return verifkit.Result{Labels: []string{"invalid-case"}}
+	}
+	{
 		f := c24NewConfigFix()
 		t := f.newTarget()
 		send = func(seq int) { f.send(seq, c.Size) }
 		makeReady = func() error { return f.handler.flushQueuedPluginMessagesTo(f.servers[t]) }
 		backend, client = f.conns[t], f.client
-	default:
-		f := c24NewPlayFix()
-		joins := 0
-		send = func(seq int) {
-			f.handle(&plugin.Message{Channel: c24Channel(seq), Data: c24Payload(seq, c.Size)})
-		}
-		makeReady = func() error {
-			jg := &packet.JoinGame{EntityID: 7 + joins, Dimension: joins % 2}
-			lt := "default"
-			jg.LevelType = &lt
-			joins++
-			return f.handler.handleBackendJoinGame(&proto.PacketContext{Direction: proto.ClientBound,
-				Protocol: f.client.protocol, Packet: jg, Payload: []byte{0x23}}, jg, f.sc)
-		}
-		backend, client = f.backend, f.client
 	}
 	for s := 0; s < c.Pre; s++ {
 		send(s)
@@ -885,7 +1157,7 @@ func c24RunRace(c c24RaceCase) verifkit.Result {
 
 func c24GenRace(t *rapid.T) c24RaceCase {
 	return c24RaceCase{
-		Queue: rapid.SampledFrom([]string{"config", "prejoin"}).Draw(t, "queue"),
+		Queue: "config",
 		Pre:   rapid.IntRange(0, 40).Draw(t, "pre"),
 		K:     rapid.IntRange(1, 60).Draw(t, "k"),
 		Size:  rapid.SampledFrom([]int{0, 1, 16, 512}).Draw(t, "size"),
@@ -899,10 +1171,13 @@ func TestVerif_C24(t *testing.T) {
 	verifkit.Check(t, "C24", "prejoin-queue",
 		"clientPlaySessionHandler with a Legacy Forge 1.12.2 client built by newConnectedPlayer: 2..16 ops over {client plugin message / bursts (same size steering), handshake reset, next FML|HS handshake message (real phase machine), backend phase unknown/vanilla, JoinGame = real handleBackendJoinGame}; readiness = handshake complete or JoinGame (source comment); same oracle; non-trivial = >=2 messages queued and >=1 forwarded directly afterwards",
 		c24GenPlay, c24RunPlay)
+	verifkit.Check(t, "C24", "switch-flow",
+		"1.20.2+ client built by newConnectedPlayer over a connection double that keeps one session handler per state like minecraftConn: initial join with 0..6 messages before and 0..4 after the backend's login success, then 0..3 server switches with 0..5 client messages during each configuration phase; readiness is produced only by the production trigger backendLoginSessionHandler.handleServerLoginSuccess (config handler active: flush; play handler active: doSwitch); at the end of each configuration phase the backend being joined must have received that phase's messages once, in order, and no other backend any of them; non-trivial = >=2 queued before and >=1 after the first readiness",
+		c24GenFlow, c24RunFlow)
 }
 
 func TestVerif_C24Race(t *testing.T) {
 	verifkit.Check(t, "C24", "concurrent",
-		"0..40 messages queued, then the client goroutine sends 1..60 more while the backend goroutine makes the backend ready (config: flush; prejoin: JoinGame), released from one barrier; then one more message and a final readiness event; facts valid for every interleaving: every message reaches the backend exactly once and in send order; race detector on; non-trivial = >=2 queued before and >=1 racing",
+		"0..40 messages queued, then the client goroutine sends 1..60 more while the backend goroutine makes the backend ready (config queue: flushQueuedPluginMessagesTo), released from one barrier; then one more message and a final readiness event; facts valid for every interleaving: every message reaches the backend exactly once and in send order; race detector on; non-trivial = >=2 queued before and >=1 racing",
 		c24GenRace, c24RunRace)
 }
